@@ -148,9 +148,9 @@ theorem failed_serialize_leaves_exactly_the_prefix {σ : Type} (dst : σ → Cal
   exact ⟨pre, c, post, h1, h2, by rw [h3], hat _ _ _ _ h3⟩
 
 /-- the Assembler of Model/Emitter.lean as a `serialize_to` destination (`tr` = how a node's call reaches it, including the encoder's
-outcome for instructions); calls made with one-shot state pending or in the class of finding C14-K1 are answered "outside" -/
+outcome for instructions); calls made with one-shot state pending are answered "outside" -/
 def asmDst (tr : Call → Emitter.Op) (st : Emitter.St) (c : Call) : Emitter.St × Option String :=
-  if st.one = Emitter.OneShot.empty ∧ Emitter.bindOverflows st (tr c) = false then
+  if st.one = Emitter.OneShot.empty then
     ((Emitter.step st (tr c)).st, if (Emitter.step st (tr c)).code = Gen.Err.ok then none else some (toString (Emitter.step st (tr c)).code))
   else (st, some "outside")
 
@@ -163,7 +163,7 @@ theorem asmDst_atomic (tr : Call → Emitter.Op) : ∀ st c st' e, asmDst tr st 
   · rename_i hc
     by_cases hk : (Emitter.step st (tr c)).code = Gen.Err.ok
     · simp [hk] at h
-    · have := Props.C14.failed_call_identity st (tr c) hc.1 hc.2 hk
+    · have := Props.C14.failed_call_identity st (tr c) hc hk
       simp only [hk, if_false, Prod.mk.injEq] at h
       rw [← h.1, this]
   · simp only [Prod.mk.injEq] at h
